@@ -2,7 +2,7 @@ from __future__ import annotations
 
 import asyncio
 from collections.abc import Callable
-from datetime import datetime
+from datetime import datetime, timedelta
 from typing import TYPE_CHECKING, cast
 
 import aiormq
@@ -81,9 +81,8 @@ class RabbitMessageBroker(MessageBrokerT):
 
         exp: str | None = None
         if (delayed := wait_until(params)) is not None:
-            millis = int(
-                (delayed - datetime.now()).total_seconds() * 1000,
-            )  # milliseconds as an integer
+            # whole milliseconds, rounded up: the message must not leave the delayed queue early
+            millis = -((datetime.now() - delayed) // timedelta(milliseconds=1))
             if millis > 0:
                 exp = str(millis)
 
